@@ -19,6 +19,14 @@ AccessorsOK(o) == TRUE
 PolicyStep(pre, ev) ==
   IF ev.panic THEN FALSE
   ELSE IF ~RWellFormed(StOf(pre)) THEN TRUE
+  \* clone mode (C16 traces judged under the policy property): the copy is in the same abstract state and follows the policy
+  ELSE IF ev.op = "clone" THEN ("unsupported" \in DOMAIN ev) \/ (StOf(ev.obs) = StOf(pre) /\ StOf(ev.obs2) = StOf(pre))
+  ELSE IF ev.op = "both"
+       THEN LET e2 == [ev EXCEPT !.op = ev.op2] IN
+            IF ev.op2 \in SpecOps
+            THEN LET x == RApply(e2, StOf(pre)) IN x.st = StOf(ev.obs) /\ x.st = StOf(ev.obs2) /\ x.ret = ev.ret /\ x.ret = ev.ret2
+            ELSE StOf(ev.obs) = StOf(pre) /\ StOf(ev.obs2) = StOf(pre)
+  ELSE IF ev.op \in {"clone_only", "clone_dropped"} THEN StOf(ev.obs) = StOf(pre)
   ELSE IF ev.op \in SpecOps
        THEN LET x == RApply(ev, StOf(pre)) IN x.st = StOf(ev.obs) /\ x.ret = ev.ret
        ELSE StOf(ev.obs) = StOf(pre)
@@ -35,6 +43,16 @@ C15Step(pre, ev) ==
   IF ev.op = "drop" THEN TRUE
   ELSE IF ev.panic THEN TRUE
   ELSE IF ~RWellFormed(StOf(pre)) THEN TRUE
+  \* clone mode: cloning notifies nobody; on the common operation the ORIGINAL and the COPY each notify exactly as the
+  \* specification says (a copy that lost its callback stays silent)
+  ELSE IF ev.op \in {"clone", "clone_dropped"} THEN TRUE
+  ELSE IF ev.op = "both" THEN
+       LET e2 == [ev EXCEPT !.op = ev.op2] IN
+       IF ev.op2 \notin SpecOps THEN ev.cb = <<>> /\ ev.cb2 = <<>>
+       ELSE LET x == RApply(e2, StOf(pre)) IN
+            IF x.st = StOf(ev.obs) /\ x.st = StOf(ev.obs2) THEN (ev.cb = x.cb /\ ev.cb2 = x.cb) \/ pre.cap = 0
+            ELSE TRUE
+  ELSE IF ev.op = "clone_only" THEN TRUE
   ELSE IF ev.op \notin SpecOps THEN ev.cb = <<>>
   ELSE LET x == RApply(ev, StOf(pre)) IN
        IF x.st = StOf(ev.obs)
